@@ -354,7 +354,32 @@ pub fn out_of_scope(v: &Value) -> Option<String> {
     }
 }
 
+/// a list, map or array whose encoded body is within a few bytes of the one-byte / four-byte header
+/// boundary (the width class is chosen from the body length, in the encoder and in the size calculator)
+fn gen_boundary_compound(rng: &mut Rng) -> Value {
+    let t = 248 + rng.below(14) as usize; // body length aimed at: 248..261
+    let bin = |n: usize, rng: &mut Rng| Value::Binary(serde_bytes::ByteBuf::from((0..n).map(|_| rng.below(256) as u8).collect::<Vec<u8>>()));
+    let inner = match rng.below(4) {
+        0 => Value::List(vec![bin(t.saturating_sub(if t - 2 <= 255 { 2 } else { 5 }), rng)]),
+        1 => {
+            let mut m = OrderedMap::new();
+            m.insert(Value::Ubyte(rng.below(256) as u8), bin(t.saturating_sub(if t - 4 <= 255 { 4 } else { 7 }), rng));
+            Value::Map(m)
+        }
+        2 => Value::Array(Array((0..t).map(|_| Value::Ubyte(rng.below(256) as u8)).collect())),
+        _ => Value::List((0..t / 2).map(|_| Value::Ubyte(rng.below(256) as u8)).collect()),
+    };
+    match rng.below(3) {
+        0 => inner,
+        1 => Value::List(vec![Value::Null, inner]),
+        _ => Value::Described(Box::new(Described { descriptor: Descriptor::Code(rng.below(300)), value: inner })),
+    }
+}
+
 pub fn gen_value(rng: &mut Rng, depth: u32, allow_oos: bool) -> Value {
+    if depth >= 2 && rng.chance(1, 20) {
+        return gen_boundary_compound(rng);
+    }
     let r = rng.below(100);
     if depth == 0 || r < 55 {
         if rng.chance(1, 12) {
@@ -473,7 +498,7 @@ pub fn dec_io(bytes: &[u8], chunk: usize) -> (DecOut, usize) {
         (out, src.pos)
     });
     match r {
-        Ok(((Ok(v), consumed), taken)) => (DecOut::Ok { value: show(&v), rest: bytes.len() - consumed }, taken),
+        Ok(((Ok(v), consumed), taken)) => (DecOut::Ok { value: show(&v), rest: bytes.len().checked_sub(consumed).unwrap_or(usize::MAX) }, taken),
         Ok(((Err(e), _), taken)) => (DecOut::Err(err_class(&e).to_string()), taken),
         Err(_) => (DecOut::Panic(String::new()), 0),
     }
@@ -738,8 +763,8 @@ pub fn main(opts: &Opts) {
                     report.finding(Finding { kind: "violation", key: format!("io-vs-slice:{}", class), description: format!("slice reader: {:?}; io reader (chunks of {}): {:?}", s, chunk, o), replay: json!({"property": prop, "module": "codec", "value": text, "bytes": hx(&tail)}) });
                 }
                 if let DecOut::Ok { rest, .. } = &o {
-                    if taken != tail.len() - rest {
-                        report.finding(Finding { kind: "violation", key: format!("io-overread:{}", class), description: format!("io reader took {} bytes from the stream for a value of {} bytes (chunk {})", taken, tail.len() - rest, chunk), replay: json!({"property": prop, "module": "codec", "value": text, "bytes": hx(&tail)}) });
+                    if *rest == usize::MAX || taken != tail.len() - rest {
+                        report.finding(Finding { kind: "violation", key: format!("io-overread:{}", class), description: format!("io reader took {} bytes from the stream for a value of {} bytes (chunk {})", taken, tail.len().wrapping_sub(*rest), chunk), replay: json!({"property": prop, "module": "codec", "value": text, "bytes": hx(&tail)}) });
                     }
                 }
             }
